@@ -17,6 +17,7 @@
  * along with this program.  If not, see <https://www.gnu.org/licenses/>.
  */
 
+use air_interpreter_data::PosType;
 use air_interpreter_data::TraceLen;
 
 use super::ExecutedState;
@@ -72,8 +73,12 @@ impl TraceSlider {
     }
 
     pub(crate) fn set_position_and_len(&mut self, position: TracePos, subtrace_len: TraceLen) -> KeeperResult<()> {
-        // it's possible to set empty subtrace_len and inconsistent position
-        if subtrace_len != 0 && position + subtrace_len > self.trace.trace_states_count().into() {
+        // it's possible to set empty subtrace_len and inconsistent position;
+        // both values come from data, so their sum may not fit into the position type
+        let fits_trace = PosType::from(position)
+            .checked_add(subtrace_len)
+            .map_or(false, |end_pos| end_pos <= self.trace.trace_states_count());
+        if subtrace_len != 0 && !fits_trace {
             return Err(SetSubtraceLenAndPosFailed {
                 requested_pos: position,
                 requested_subtrace_len: subtrace_len,
@@ -89,7 +94,8 @@ impl TraceSlider {
     }
 
     pub(crate) fn set_subtrace_len(&mut self, subtrace_len: TraceLen) -> KeeperResult<()> {
-        let trace_remainder: TraceLen = (TracePos::from(self.trace_len()) - self.position).into();
+        // the position may be inconsistent (see set_position_and_len), i.e. behind the trace end
+        let trace_remainder: TraceLen = self.trace_len().saturating_sub(PosType::from(self.position));
         if trace_remainder < subtrace_len {
             return Err(SetSubtraceLenFailed {
                 requested_subtrace_len: subtrace_len,
